@@ -134,12 +134,14 @@ func (s *Sleeper) AddWaker(w *Waker, id int) {
 	// Try to associate the waker with the sleeper. If it's already
 	// asserted, we simply enqueue it in the "ready" list.
 	for {
+		verifYield(1)
 		p := (*Sleeper)(atomic.LoadPointer(&w.s))
 		if p == &assertedSleeper {
 			s.enqueueAssertedWaker(w)
 			return
 		}
 
+		verifYield(2)
 		if atomic.CompareAndSwapPointer(&w.s, usleeper(p), usleeper(s)) {
 			return
 		}
@@ -151,6 +153,7 @@ func (s *Sleeper) AddWaker(w *Waker, id int) {
 func (s *Sleeper) nextWaker(block bool) *Waker {
 	// Attempt to replenish the local list if it's currently empty.
 	if s.localList == nil {
+		verifYield(3)
 		for atomic.LoadPointer(&s.sharedList) == nil {
 			// Fail request if caller requested that we
 			// don't block.
@@ -162,12 +165,15 @@ func (s *Sleeper) nextWaker(block bool) *Waker {
 			// this allows them to abort the wait by setting
 			// waitingG back to zero (which we'll notice
 			// before committing the sleep).
+			verifYield(4)
 			atomic.StoreUintptr(&s.waitingG, preparingG)
 
 			// Check if something was queued while we were
 			// preparing to sleep. We need this interleaving
 			// to avoid missing wake ups.
+			verifYield(5)
 			if atomic.LoadPointer(&s.sharedList) != nil {
+				verifYield(6)
 				atomic.StoreUintptr(&s.waitingG, 0)
 				break
 			}
@@ -179,12 +185,15 @@ func (s *Sleeper) nextWaker(block bool) *Waker {
 			// commitSleep to decide whether to immediately
 			// wake the caller up or to leave it sleeping.
 			const traceEvGoBlockSelect = 24
+			verifYield(7)
 			gopark(commitSleep, &s.waitingG, "sleeper", traceEvGoBlockSelect, 0)
+			verifYield(8)
 		}
 
 		// Pull the shared list out and reverse it in the local
 		// list. Given that wakers push themselves in reverse
 		// order, we fix things here.
+		verifYield(9)
 		v := (*Waker)(atomic.SwapPointer(&s.sharedList, nil))
 		for v != nil {
 			cur := v
@@ -221,6 +230,7 @@ func (s *Sleeper) Fetch(block bool) (id int, ok bool) {
 
 		// Reassociate the waker with the sleeper. If the waker was
 		// still asserted we can return it, otherwise try the next one.
+		verifYield(10)
 		old := (*Sleeper)(atomic.SwapPointer(&w.s, usleeper(s)))
 		if old == &assertedSleeper {
 			return w.id, true
@@ -243,6 +253,7 @@ func (s *Sleeper) Done() {
 	for w != nil {
 		next := w.allWakersNext
 		for {
+			verifYield(11)
 			t := atomic.LoadPointer(&w.s)
 			if t != usleeper(s) {
 				w.allWakersNext = pending
@@ -250,6 +261,7 @@ func (s *Sleeper) Done() {
 				break
 			}
 
+			verifYield(12)
 			if atomic.CompareAndSwapPointer(&w.s, t, nil) {
 				break
 			}
@@ -284,8 +296,10 @@ func (s *Sleeper) Done() {
 func (s *Sleeper) enqueueAssertedWaker(w *Waker) {
 	// Add the new waker to the front of the list.
 	for {
+		verifYield(13)
 		v := (*Waker)(atomic.LoadPointer(&s.sharedList))
 		w.next = v
+		verifYield(14)
 		if atomic.CompareAndSwapPointer(&s.sharedList, uwaker(v), uwaker(w)) {
 			break
 		}
@@ -293,15 +307,18 @@ func (s *Sleeper) enqueueAssertedWaker(w *Waker) {
 
 	for {
 		// Nothing to do if there isn't a G waiting.
+		verifYield(15)
 		g := atomic.LoadUintptr(&s.waitingG)
 		if g == 0 {
 			return
 		}
 
 		// Signal to the sleeper that a waker has been asserted.
+		verifYield(16)
 		if atomic.CompareAndSwapUintptr(&s.waitingG, g, 0) {
 			if g != preparingG {
 				// We managed to get a G. Wake it up.
+				verifYield(17)
 				goready(g, 0)
 			}
 		}
@@ -348,11 +365,13 @@ func (w *Waker) Assert() {
 	// Nothing to do if the waker is already asserted. This check allows us
 	// to complete this case (already asserted) without any interlocked
 	// operations on x86.
+	verifYield(18)
 	if atomic.LoadPointer(&w.s) == usleeper(&assertedSleeper) {
 		return
 	}
 
 	// Mark the waker as asserted, and wake up a sleeper if there is one.
+	verifYield(19)
 	switch s := (*Sleeper)(atomic.SwapPointer(&w.s, usleeper(&assertedSleeper))); s {
 	case nil:
 	case &assertedSleeper:
@@ -371,18 +390,21 @@ func (w *Waker) Clear() bool {
 	// Nothing to do if the waker is not asserted. This check allows us to
 	// complete this case (already not asserted) without any interlocked
 	// operations on x86.
+	verifYield(20)
 	if atomic.LoadPointer(&w.s) != usleeper(&assertedSleeper) {
 		return false
 	}
 
 	// Try to store nil in the sleeper, which indicates that the waker is
 	// not asserted.
+	verifYield(21)
 	return atomic.CompareAndSwapPointer(&w.s, usleeper(&assertedSleeper), nil)
 }
 
 // IsAsserted returns whether the waker is currently asserted (i.e., if it's
 // currently in a state that would cause its matching sleeper to wake up).
 func (w *Waker) IsAsserted() bool {
+	verifYield(22)
 	return (*Sleeper)(atomic.LoadPointer(&w.s)) == &assertedSleeper
 }
 
